@@ -230,8 +230,10 @@ class ZMQEventLoop(EventLoop):
         return True
 
     def _entering_idle(self) -> None:
-        for callback in list(self._idle_callbacks.values()):
-            callback()
+        # idle callbacks may remove idle callbacks: iterate over a copy, skip the removed ones
+        for handle, callback in tuple(self._idle_callbacks.items()):
+            if handle in self._idle_callbacks:
+                callback()
 
     def run(self) -> None:
         """
